@@ -273,7 +273,14 @@ func runVerifReloadJob(job *lJob, tmp string) *lOut {
 		defer rm.Stop()
 	}
 	apply := func(e *lEdit) ChangeType {
+		if fi, err := os.Stat(file); err == nil && fi.IsDir() {
+			os.Remove(file)
+		}
 		switch e.Style {
+		case "mkdir":
+			os.Remove(file)
+			os.Mkdir(file, 0o755)
+			return ChangeTypeModified
 		case "none":
 			return ChangeTypeModified
 		case "delete":
@@ -300,7 +307,7 @@ func runVerifReloadJob(job *lJob, tmp string) *lOut {
 	for i := range job.Edits {
 		e := &job.Edits[i]
 		st := lStep{Edit: i}
-		if e.Style != "delete" && e.Style != "none" {
+		if e.Style != "delete" && e.Style != "none" && e.Style != "mkdir" {
 			bc, err := verifCompileSrc(e.Content)
 			if err == nil {
 				st.ExpHash = verifHash(bc)
